@@ -87,23 +87,80 @@ pub struct Probe {
     pub ub_at_poll: Mutex<Vec<Cost>>,
     pub pushed_above_parent: Mutex<u64>,
 }
+/// one pending entry of the reference model of the fringe (C11 on solver-generated histories)
+#[derive(Clone)]
+pub struct Pending {
+    state: St,
+    depth: usize,
+    value: Cost,
+    ub: Cost,
+    paths: Vec<(Vec<Decision>, Cost)>, // every path coalesced into this entry with its own value
+}
 pub struct RecFringe<'a> {
     pub inner: &'a mut dyn Fringe<State = St>,
     pub probe: &'a Probe,
+    /// Some(nodup?) => check the fringe contract against a reference model on the fly
+    pub contract: Option<bool>,
+    pub pending: Vec<Pending>,
 }
 impl Fringe for RecFringe<'_> {
     type State = St;
     fn push(&mut self, node: SubProblem<St>) {
-        self.inner.push(node)
+        if let Some(nodup) = self.contract {
+            let same = if nodup { self.pending.iter().position(|p| p.state == *node.state && p.depth == node.depth) } else { None };
+            match same {
+                Some(i) => {
+                    note("solver_push_coalesced");
+                    let p = &mut self.pending[i];
+                    p.value = p.value.mx(node.value);
+                    p.ub = p.ub.mx(node.ub);
+                    p.paths.push((node.path.clone(), node.value));
+                }
+                None => self.pending.push(Pending { state: *node.state, depth: node.depth, value: node.value, ub: node.ub, paths: vec![(node.path.clone(), node.value)] }),
+            }
+        }
+        self.inner.push(node);
+        if self.contract.is_some() && self.inner.len() != self.pending.len() {
+            panic!("SYMX-LABEL[C11:len] (solver history) fringe length {} but {} distinct sub-problems are pending", self.inner.len(), self.pending.len());
+        }
     }
     fn pop(&mut self) -> Option<SubProblem<St>> {
         let n = self.inner.pop();
         if let Some(n) = n.as_ref() {
             *self.probe.last_pop_ub.lock().unwrap() = Some(n.ub);
         }
+        if self.contract.is_some() {
+            match n.as_ref() {
+                None => {
+                    if !self.pending.is_empty() {
+                        panic!("SYMX-LABEL[C11:lost] (solver history) pop returned None although sub-problems are pending");
+                    }
+                }
+                Some(n) => {
+                    let pos = self.pending.iter().position(|p| p.state == *n.state && p.depth == n.depth && p.paths.iter().any(|(pa, _)| *pa == n.path));
+                    let pos = match pos {
+                        Some(x) => x,
+                        None => panic!("SYMX-LABEL[C11:invented] (solver history) popped a sub-problem that is not pending (state, depth, path unknown)"),
+                    };
+                    let p = self.pending[pos].clone();
+                    oblige("C11:value-is-max", n.value.eq_c(p.value));
+                    oblige("C11:ub-is-max", n.ub.eq_c(p.ub));
+                    let own = p.paths.iter().find(|(pa, _)| *pa == n.path).unwrap().1;
+                    oblige("C11:path-of-value", own.eq_c(n.value));
+                    for (i, o) in self.pending.iter().enumerate() {
+                        if i != pos {
+                            oblige("C11:max-ub-first", o.ub.lt_c(n.ub).or(o.ub.eq_c(n.ub).and(o.value.le_c(n.value))));
+                        }
+                    }
+                    self.pending.remove(pos);
+                    note("pop_some");
+                }
+            }
+        }
         n
     }
     fn clear(&mut self) {
+        self.pending.clear();
         self.inner.clear()
     }
     fn len(&self) -> usize {
@@ -144,7 +201,8 @@ pub fn solve_with<D: Dd, C: Cache<State = St> + Default>(t: &Table, c: &SolveCas
     let mut nodup = NoDupFringe::new(MaxUB::new(&ranking));
     let fringe: &mut dyn Fringe<State = St> = if c.nodup { &mut nodup } else { &mut simple };
     let dummy = Probe::default();
-    let mut rec = RecFringe { inner: fringe, probe: probe.unwrap_or(&dummy) };
+    let contract = if c.props.iter().any(|p| p == "C11") { Some(c.nodup) } else { None };
+    let mut rec = RecFringe { inner: fringe, probe: probe.unwrap_or(&dummy), contract, pending: vec![] };
     let fringe: &mut dyn Fringe<State = St> = &mut rec;
     t.reset_monitor();
     let mut solver = SequentialSolver::<St, D, C>::custom(t, t, &ranking, width, &dominance, cutoff, fringe);
